@@ -7,7 +7,7 @@
 use std::collections::{BTreeMap, BTreeSet};
 use std::panic::AssertUnwindSafe;
 
-use saito_core::core::consensus::block::Block;
+use saito_core::core::consensus::block::{Block, BlockType};
 use saito_core::core::consensus::burnfee::BurnFee;
 use saito_core::core::consensus::golden_ticket::GoldenTicket;
 use saito_core::core::consensus::slip::{Slip, SlipType};
@@ -421,7 +421,7 @@ impl Sim {
         let orc_lit = abs_oracle(&self.node, &given, &parent_hash, &mut self.int);
         let bf = bf_calc(&self.node, &parent_hash, ts);
         let same = match (&created, &delivered) {
-            (Some(c), Some(d)) => c.hash == d.hash && c.transactions.len() == d.transactions.len() && c.signature == d.signature,
+            (Some(c), Some(d)) => c.serialize_for_net(BlockType::Full) == d.serialize_for_net(BlockType::Full),
             _ => false,
         };
         let created_lit = match (&created, same) {
@@ -626,11 +626,17 @@ pub fn atr_oracle(
                         rep.failures.push(format!("{} is too small to pay the fee but is rebroadcast", desc));
                     }
                     expected_fees_atr += a;
-                    if utxo_after.contains(&payload.get_utxoset_key().to_vec()) {
-                        rep.known.push((
-                            "collected-output-stays-spendable".to_string(),
-                            format!("{}: its value was collected as fees but its entry is still spendable in the utxo set", desc),
-                        ));
+                    // can it still be spent? ask the real Transaction::validate (as pool and block validation do)
+                    if let Some(owner) = sim.key_index(&payload.public_key) {
+                        let mut spend = make_tx(&[payload.clone()], &[(payload.public_key, payload.amount)], &sim.keys[owner].1, b.timestamp + 1);
+                        spend.generate(&sim.node.pk, 0, 0);
+                        let ok = std::panic::catch_unwind(AssertUnwindSafe(|| spend.validate(&sim.node.blockchain.utxoset, &sim.node.blockchain, true))).unwrap_or(false);
+                        if ok {
+                            rep.known.push((
+                                "collected-output-stays-spendable".to_string(),
+                                format!("{}: its value was collected as fees but a transaction spending it still validates", desc),
+                            ));
+                        }
                     }
                 }
             }
